@@ -5,7 +5,7 @@
                                                checks, undo; records the outcome in meta.json"""
 import json, os, shutil, subprocess, sys
 ENV = dict(os.environ, GOFLAGS="-mod=mod", GOPROXY="off", GOSUMDB="off", GOTOOLCHAIN="local")
-V = "/verif"
+V = os.environ.get("VERIF_DIR", "/verif")
 
 def sh(cmd, cwd, timeout=900):
     r = subprocess.run(cmd, shell=True, cwd=cwd, env=ENV, capture_output=True, text=True, timeout=timeout)
